@@ -9,7 +9,7 @@ from __future__ import annotations
 import ast
 from typing import Dict, List, Optional
 
-from ..core import Unrecognised, call_name, calls_in, dotted, facts, module_of, qual, site, src, walk_local, parent, positional_arity
+from ..core import has_fact, Unrecognised, call_name, calls_in, dotted, facts, module_of, qual, site, src, walk_local, parent, positional_arity
 
 Z3H = "src/isla/z3_helpers.py"
 
@@ -189,6 +189,48 @@ def rule_m1(ctx):
     ctx.check(ok and srt, "M1-merge", c, "inputs sorted by lower bound", site(f), "merging assumes intervals sorted by their lower bound", "sorted + asserted")
 
 
+def rule_f2(ctx):
+    """Literal, padding and tail cases of the interval inference: (a) a string literal contributes exactly its integer value (the empty word has none);
+    (b) zero padding is removed only from the FRONT of a concatenation; (c) the open-ended answers `[d][0-9]*` / `[d][0-9]+` apply to two-element concatenations only."""
+    f = ctx.repo.func(Z3H, "numeric_intervals_from_seq_to_re", "C15.F2")
+    c = f"{Z3H}:numeric_intervals_from_seq_to_re"
+    for r in [x for x in walk_local(f) if isinstance(x, ast.Return)]:
+        t = " ".join(src(r.value).split())
+        if t == "fallback(regex)":
+            continue
+        derived = t.startswith("seqref_to_int(regex.children()[0])")
+        ctx.check(derived, "F2-literal-value", c, f"answer `{t[:50]}` is the literal's own integer value", site(r),
+                  f"the literal case answers `{t[:60]}` without reading the literal's digits: e.g. the empty word \"\" is given the value 0, so Union(Re(\"\"), [3-7]) yields [(0,0),(3,7)] although no "
+                  "matched string denotes 0", "seqref_to_int(literal)")
+    g = ctx.repo.func(Z3H, "numeric_intervals_from_concat", "C15.F2")
+    c2 = f"{Z3H}:numeric_intervals_from_concat"
+    # (b) padding removal
+    drops = [a for a in walk_local(g) if isinstance(a, ast.Assign) and src(a.targets[0]) == "children" and "children" in src(a.value) and not isinstance(a.value, ast.Call)]
+    pad = [a for a in drops if isinstance(a.value, ast.Subscript) and src(a.value) == "children[idx:]"]
+    filt = [a for a in drops if isinstance(a.value, (ast.ListComp, ast.GeneratorExp)) and "intervals == [(0, 0)]" in " ".join(src(g).split()) and ("padding" in src(a.value) or "(0, 0)" in src(a.value))]
+    if filt:
+        ctx.viol("F2-leading-padding-only", c2, "zero padding is dropped from the front only", site(filt[0]),
+                 f"`{' '.join(src(filt[0]).split())[:70]}` removes EVERY all-zero element of the concatenation, also literal zeroes inside the number: `0*[1-9]0` (10, 20, ..., 90) is given (1, 9)")
+    elif pad:
+        wl = [w for w in walk_local(g) if isinstance(w, ast.While) and "idx < len(children)" in src(w.test) and "intervals == [(0, 0)]" in " ".join(src(w.test).split())]
+        ctx.check(len(wl) == 1 and has_fact(facts(pad[0]), "idx > 0"), "F2-leading-padding-only", c2, "zero padding is dropped from the front only", site(pad[0]), "prefix removal children[idx:] after counting leading zero elements not found", "children[idx:]")
+    else:
+        raise Unrecognised("C15.F2", c2, "removal of zero padding not found")
+    # (c) open-ended answers
+    n = 0
+    for r in [x for x in walk_local(g) if isinstance(x, ast.Return)]:
+        t = " ".join(src(r.value).split())
+        if "sys.maxsize" in t and t.startswith("Some("):
+            n += 1
+            fs = facts(r)
+            two = any(f_.positive and "len(children) == 2" in f_.text for f_ in fs)
+            ctx.check(two, "F2-open-ended-two-elements", c2, f"`{t[:40]}` only for a two-element concatenation", site(r),
+                      f"the open-ended answer `{t[:50]}` is given without `len(children) == 2`: elements between the leading digit and the trailing [0-9]*/[0-9]+ are ignored, so "
+                      "`[1-9][0-9][0-9]+` (numbers >= 100) is given (10, inf) and `[1-9]5[0-9]*` is given (1, inf)", "dominated by len(children) == 2")
+    if n < 3:
+        raise Unrecognised("C15.F2", c2, f"only {n} open-ended answers found (expected 3)")
+
+
 def rule_f1(ctx):
     """`[0-9]*` / `[0-9]+` carry no sign: the integer values of the matched strings are the non-negative integers, so the interval's lower bound is 0."""
     f = ctx.repo.func(Z3H, "numeric_intervals_from_full_range", "C15.F1")
@@ -212,6 +254,7 @@ def rule_f1(ctx):
 
 def run(ctx) -> str:
     ctx.guarded("F1", lambda: rule_f1(ctx))
+    ctx.guarded("F2", lambda: rule_f2(ctx))
     from . import c05
 
     ctx.guarded("R7", lambda: c05.rule_r7(ctx))
